@@ -62,7 +62,7 @@ def xml_doc(g):
                 ET.SubElement(e, "name").text = "a" if ((df == "dupname" and h == "p2") or g[TREE[h]] == "noname-dupchild") else NAME[h]
             ET.SubElement(e, "id").text = "nonsense-id" if df == "badid" else UUIDS[h]
             ET.SubElement(e, "type").text = "nonsense-type" if df == "baddtype" else "int"
-            ET.SubElement(e, "value").text = "abc" if df in ("badvalue", "noname-badvalue") else ("" if df == "emptyvalue" else "[1,2]")
+            ET.SubElement(e, "value").text = "abc" if df in ("badvalue", "noname-badvalue") else ("" if df == "emptyvalue" else "[ \n\t ]" if df == "blanklist" else "[ 1 ,   2 ]" if df == "spacedlist" else "[1,2]")
             if df == "repeat-value":
                 ET.SubElement(e, "value").text = "[3]"
             if df == "unknown-child":
@@ -108,7 +108,7 @@ def dict_doc(g):
             e["name"] = "a" if ((df == "dupname" and h == "p2") or g[TREE[h]] == "noname-dupchild") else NAME[h]
         e["id"] = "nonsense-id" if df == "badid" else UUIDS[h]
         e["type"] = "nonsense-type" if df == "baddtype" else "int"
-        e["value"] = ["abc"] if df in ("badvalue", "noname-badvalue") else ([] if df == "emptyvalue" else [1, 2])
+        e["value"] = ["abc"] if df in ("badvalue", "noname-badvalue") else ([] if df == "emptyvalue" else [" \n\t "] if df == "blanklist" else [1, 2])
         if df in ("unknown-child", "attr", "case-tag", "repeat-value"):
             e["foo"] = "bar"
         if df == "badcard":
